@@ -67,7 +67,7 @@ REQUIRED_FORMATS = [
                                      34, 35, 36, 37)]
 
 PROVED = {"cmap", "cmap4", "cmap4seg", "cmap12", "index", "loca", "cover", "classdef", "t2store", "t2stack", "sum",
-          "cffpriv", "fixedtab"}
+          "cffpriv", "fixedtab", "prodcap", "t2op"}
 NOT_REPLAYED = {"cmap4seg", "cmap12", "cover"}
 
 
@@ -81,7 +81,8 @@ def _budget_kib():
 
 def _seeds_module(seeds):
     recs = [{"id": s["id"], "dec": s["dec"], "len": s["len"], "mlen": s["mlen"], "ntab": s["ntab"],
-             "ngid": s.get("ngid", 0), "ndict": s.get("ndict", 0)} for s in seeds]
+             "ngid": s.get("ngid", 0), "ndict": s.get("ndict", 0),
+             "ncnt": s.get("ncnt", 0), "ncpair": s.get("ncpair", 0)} for s in seeds]
     return ("---------------------------- MODULE C02Seeds ----------------------------\n"
             "\\* generated by checks/C02.py from the seed list of `c02 seeds`\n"
             "SeedsVal == " + vlib.tla_value(recs) + "\n"
@@ -382,7 +383,7 @@ def _replay_many(ctx, binp, env, items):
         if len(data) == 0:
             raise vlib.Infra("cannot replay an empty input")
         open(os.path.join(d, "%d.bin" % k), "wb").write(data)
-        seeds.append({"id": k, "name": "replay", "dec": dec, "len": len(data), "mlen": len(data), "ntab": 0, "ngid": 0, "ndict": 0})
+        seeds.append({"id": k, "name": "replay", "dec": dec, "len": len(data), "mlen": len(data), "ntab": 0, "ngid": 0, "ndict": 0, "ncnt": 0, "ncpair": 0})
     vlib.write_ndjson(os.path.join(d, "seeds.ndjson"), seeds)
     # SeedsOK of the trace spec is only required in plan mode; any seed list is fine for replay mode
     bad = _isolate(ctx, binp, env, d, _seeds_module(seeds),
